@@ -1,0 +1,44 @@
+//go:build verif
+
+// Verification hooks (compiled only with -tags verif). Add-only: nothing here is used by
+// the package itself. They expose the unexported phout line renderer with an explicit
+// timestamp, a sample constructor with explicit contents, and the iota order of the fields.
+
+package netsample
+
+import "time"
+
+// VerifNewSample builds a sample with explicit contents (no clock read).
+func VerifNewSample(ts time.Time, tag string, id uint64, fields [fieldsNum]int) *Sample {
+	s := &Sample{timeStamp: ts, tags: tag, id: id}
+	s.fields = fields
+	return s
+}
+
+// VerifAppendPhout renders one phout line (without the trailing newline) exactly as
+// phoutAggregator.handle does: appendPhout on an empty destination buffer.
+func VerifAppendPhout(ts time.Time, tag string, id uint64, fields [fieldsNum]int, withID bool) []byte {
+	return appendPhout(VerifNewSample(ts, tag, id, fields), nil, withID)
+}
+
+// VerifPhoutKey is one named field index of the sample.
+type VerifPhoutKey struct {
+	Name  string
+	Index int
+}
+
+// VerifPhoutKeys returns the field indices by the names of their constants, and fieldsNum.
+func VerifPhoutKeys() ([]VerifPhoutKey, int) {
+	return []VerifPhoutKey{
+		{"keyRTTMicro", keyRTTMicro},
+		{"keyConnectMicro", keyConnectMicro},
+		{"keySendMicro", keySendMicro},
+		{"keyLatencyMicro", keyLatencyMicro},
+		{"keyReceiveMicro", keyReceiveMicro},
+		{"keyIntervalEventMicro", keyIntervalEventMicro},
+		{"keyRequestBytes", keyRequestBytes},
+		{"keyResponseBytes", keyResponseBytes},
+		{"keyErrno", keyErrno},
+		{"keyProtoCode", keyProtoCode},
+	}, fieldsNum
+}
